@@ -13,7 +13,6 @@ from harness import c16loc, c16gen
 ID = 'C16'
 TITLE = 'Renames never change formula results'
 PROPS = ['Props/C16']
-DISABLED = True
 
 # table ids that do not collide with a name exported by `functions` (a table named T, N, SUM ... is a known root cause)
 SAFE_TABLES = ['Tt', 'Foo', 'Bar baz', 'People', 'items', 'R2', 'Table1']
@@ -582,9 +581,9 @@ def replacer_cases(ctx):
 def run_streams(ctx):
   """All engine runs of one check: random histories and the directed documents, in the three streams.
   Returns the list of judged renames: dicts(stream, mode, seed, bundles, path, act, status, info, problems, trees)."""
-  plan = [('main', 'random', ctx.n(22, 700)), ('main', 'directed', ctx.n(1, 30)),
-          ('clash', 'directed', ctx.n(1, 10)), ('gaps', 'directed', ctx.n(1, 10)),
-          ('clash', 'random', ctx.n(1, 60)), ('gaps', 'random', ctx.n(1, 60))]
+  plan = [('main', 'random', ctx.n(22, 320)), ('main', 'directed', ctx.n(1, 12)),
+          ('clash', 'directed', ctx.n(1, 6)), ('gaps', 'directed', ctx.n(1, 6)),
+          ('clash', 'random', ctx.n(1, 30)), ('gaps', 'random', ctx.n(1, 30))]
   out = []
   for stream, mode, n in plan:
     for k in range(n):
@@ -593,7 +592,7 @@ def run_streams(ctx):
       if mode == 'random':
         it = run_history(seed, stream, 8, 5, collect=collect)
       else:
-        it = run_directed(seed, stream, ctx.n(4, 14), collect=collect)
+        it = run_directed(seed, stream, ctx.n(4, 12), collect=collect)
       for done, path, act, status, info, problems, gen in it:
         out.append({'stream': stream, 'mode': mode, 'seed': seed, 'bundles': done, 'path': path, 'act': act,
                     'status': status, 'info': info, 'problems': problems,
@@ -613,6 +612,7 @@ def monitor_names_complete(ctx, runs):
       continue
     sch = info['schema']
     loc = c16loc.Locator(sch, follow_gaps=False)
+    loc_gaps = c16loc.Locator(sch, follow_gaps=True)
     exists = lambda t, c: t in sch and (c is None or c in sch[t])
     for tid, cid, old, _new, reported in info['formulas']:
       key = (tid, cid, old, json.dumps(sorted(sch.get(tid, {})), default=repr))
@@ -624,11 +624,13 @@ def monitor_names_complete(ctx, runs):
         ctx.bump('monitor:unparsable formula')
         continue
       mine = sorted(o.key() for o in occs if exists(o.table, o.col))
+      # the occurrences behind the registered gaps (known findings) may or may not be reported
+      allowed = set(o.key() for o in (loc_gaps.occurrences(tid, old) or []) if exists(o.table, o.col))
       real = sorted(x for x in reported if exists(x[1], x[2]))
       ctx.bump('monitor:formulas compared')
       toks = c16loc.tokens_at(old)
       tok_bad = [x for x in real if not c16loc.token_ok(toks, x[0], x[0] + len(x[2] if x[2] is not None else x[1]))]
-      if mine != real or tok_bad:
+      if not (set(mine) <= set(real) <= allowed) or len(set(real)) != len(real) or tok_bad:
         bad += 1
         if bad <= 3:
           ctx.broken('monitor:names_complete',
@@ -667,6 +669,12 @@ def correspond(ctx):
         t2.append('(cT %s %s %s %s %s)' % (zl(old), core.coq_list([coq_occ(o) for o in reported]), rt, rcs, zl(new)))
         src2.append((old, reported, info['renames'], new))
       tree = r['trees'].get(old)
+      if tree is not None and r['stream'] != 'clash' and r['stream'] == 'gaps':
+        # the model does not follow the registered gaps; formulas where that matters are left to the engine oracle
+        og = c16loc.Locator(info['schema'], follow_gaps=True).occurrences(tid, old) or []
+        if any(o.tags and (o.table, o.col) in info['renames'] for o in og):
+          ctx.bump('tree-level case skipped: a registered gap is involved')
+          tree = None
       if tree is not None and r['stream'] != 'clash':
         if old not in seen3:
           seen3.add(old)
@@ -688,8 +696,9 @@ def correspond(ctx):
                'correspondence:ren (tree level) differs from the formula the engine wrote', [repr(x) for x in src4]))
   # the four families are independent: evaluate them side by side
   import concurrent.futures
-  with concurrent.futures.ThreadPoolExecutor(max_workers=4) as ex:
-    futs = [(j, ex.submit(ctx.run_cases, j[0], [], j[1], j[2], j[3], 300, j[4])) for j in jobs]
+  # (one after the other in the thorough tier, where each family already fills 8 coqc processes with its shards)
+  with concurrent.futures.ThreadPoolExecutor(max_workers=ctx.n(4, 1)) as ex:
+    futs = [(j, ex.submit(ctx.run_cases, j[0], [], j[1], j[2], j[3], 1200, j[4])) for j in jobs]
     for j, fut in futs:
       for i in fut.result()[:3]:
         ctx.broken(j[5], j[6][i])
